@@ -43,16 +43,6 @@ func genQuote(p *pkgInfo) *leanFile {
 				}
 				f.pf("]\n\n")
 				delete(want, name)
-			case gd.Tok == token.CONST && (name == "DateFormat" || name == "DateTimeFormat"):
-				s, _ := p.constStr(vs.Values[0])
-				f.pf("def %s : List Char := %s\n\n", lowerFirst(name), leanChars(s))
-			case gd.Tok == token.VAR && (name == "dateStringRegexp" || name == "dateTimeStringRegexp"):
-				call, ok := vs.Values[0].(*ast.CallExpr)
-				if !ok || p.text(call.Fun) != "regexp.MustCompile" || len(call.Args) != 1 {
-					fail("%s: not regexp.MustCompile", name)
-				}
-				s, _ := p.constStr(call.Args[0])
-				f.pf("def %sSource : List Char := %s\n\n", name, leanChars(s))
 			}
 		}
 	}
